@@ -464,3 +464,29 @@ func JSON(v any) string {
 	}
 	return string(b)
 }
+
+// ---------------------------------------------------------------- minimisation
+
+// MinimizeSlice removes elements greedily (chunks, then single elements) while
+// stillFails holds; it complements rapid's shrinker for expensive properties
+// (fault enumeration inside the property) where the library's time budget
+// ends before the history is minimal.  At most budget evaluations are spent.
+func MinimizeSlice[T any](in []T, stillFails func([]T) bool, budget int) []T {
+	cur := append([]T(nil), in...)
+	evals := 0
+	for chunk := len(cur) / 2; chunk >= 1; chunk /= 2 {
+		for i := 0; i+chunk <= len(cur); {
+			if evals >= budget {
+				return cur
+			}
+			cand := append(append([]T(nil), cur[:i]...), cur[i+chunk:]...)
+			evals++
+			if stillFails(cand) {
+				cur = cand
+			} else {
+				i += chunk
+			}
+		}
+	}
+	return cur
+}
